@@ -100,6 +100,11 @@ func HEndToEndBig() {
 	}
 	src := make([]byte, m, m+t)
 	copy(src, prior)
+	if vparam("swap") == 1 && m >= 1400 {
+		// same size, same blocks, other arrangement: first two blocks exchanged
+		copy(src[0:700], prior[700:1400])
+		copy(src[700:1400], prior[0:700])
+	}
 	if pos >= 0 {
 		src[pos] = nd_u8()
 	}
